@@ -16,19 +16,22 @@ Theorem C01_indent_shape : get_indent_shape_ok = true /\ indent_is_nl_spaces = t
 Proof. exact indent_shape. Qed.
 Print Assumptions C01_indent_shape.
 
-Theorem C01_sites_partial_indent : forall c len, (len < indent_static_len)%N -> get_indent c len <> IndentPanic.
+(* since the fix of F1 the indentation site cannot panic, for every length and style *)
+Theorem C01_sites_partial_indent : forall c len, get_indent c len <> IndentPanic.
 Proof. exact indent_safe. Qed.
 Print Assumptions C01_sites_partial_indent.
 
-Theorem C01_sites_partial_nesting : forall c d, (2 * d + 2 < indent_static_len)%N ->
-  model_outcome (mkCase 1 c d 0) = Some 0%Z.
+Theorem C01_indent_bounded : forall c len n, get_indent c len = IndentOk n -> (n <= indent_static_len)%N.
+Proof. exact indent_bounded. Qed.
+Print Assumptions C01_indent_bounded.
+
+Theorem C01_indent_exact_inside : forall len, (len < indent_static_len)%N -> get_indent false len = IndentOk (len + 1).
+Proof. exact indent_exact_inside. Qed.
+Print Assumptions C01_indent_exact_inside.
+
+Theorem C01_sites_partial_nesting : forall c d, model_outcome (mkCase 1 c d 0) = Some 0%Z.
 Proof. exact nesting_safe. Qed.
 Print Assumptions C01_sites_partial_nesting.
-
-(* F1: the faithful model refutes the full statement *)
-Theorem C01_refuted_indent : exists len, get_indent false len = IndentPanic.
-Proof. exact indent_refuted. Qed.
-Print Assumptions C01_refuted_indent.
 
 Example C01_nonvacuous : (2 * 10 + 2 < indent_static_len)%N.
 Proof. vm_compute. reflexivity. Qed.
